@@ -21,11 +21,20 @@ pub struct LogSrc<'a> {
     fi: usize,
     pub log: Vec<Value>,
     pub logging: bool,
+    /// the first read / fill_buf call made at this offset fails once with ErrorKind::Interrupted
+    pub interrupt_at: Option<usize>,
 }
 
 impl<'a> LogSrc<'a> {
     pub fn new(data: &'a [u8], frags: Vec<usize>, logging: bool) -> Self {
-        LogSrc { data, pos: 0, cur_end: 0, frags, fi: 0, log: vec![], logging }
+        LogSrc { data, pos: 0, cur_end: 0, frags, fi: 0, log: vec![], logging, interrupt_at: None }
+    }
+    fn interrupted(&mut self) -> bool {
+        if self.interrupt_at == Some(self.pos) {
+            self.interrupt_at = None;
+            return true;
+        }
+        false
     }
     fn expose(&mut self) {
         if self.cur_end <= self.pos {
@@ -40,6 +49,9 @@ impl<'a> Read for LogSrc<'a> {
         if buf.is_empty() {
             return Ok(0);
         }
+        if self.interrupted() {
+            return Err(io::Error::new(io::ErrorKind::Interrupted, "scripted interruption"));
+        }
         self.expose();
         let n = (self.cur_end - self.pos).min(buf.len());
         buf[..n].copy_from_slice(&self.data[self.pos..self.pos + n]);
@@ -52,6 +64,9 @@ impl<'a> Read for LogSrc<'a> {
 }
 impl<'a> BufRead for LogSrc<'a> {
     fn fill_buf(&mut self) -> io::Result<&[u8]> {
+        if self.interrupted() {
+            return Err(io::Error::new(io::ErrorKind::Interrupted, "scripted interruption"));
+        }
         self.expose();
         if self.logging {
             self.log.push(json!({"ev": "fill", "n": self.cur_end - self.pos}));
